@@ -33,6 +33,7 @@ type Obl struct {
 }
 
 type Enc struct {
+	watchQ     []watchItem
 	globSlices []string
 	symAt      map[string]int // symbol -> number of lines when it was introduced
 	hints      bool           // emit array-store instantiation hints (contract clause "hints")
@@ -912,6 +913,26 @@ func (e *Enc) watchParams() {
 			e.watchVal(n, v, e.h0, 0, seen)
 		}()
 	}
+	// breadth first: what is close to the parameters is read back before the watch budget runs out
+	for len(e.watchQ) > 0 {
+		q := e.watchQ[0]
+		e.watchQ = e.watchQ[1:]
+		func() {
+			defer func() { recover() }()
+			e.watchVal(q.label, q.v, q.h, q.depth, seen)
+		}()
+	}
+}
+
+type watchItem struct {
+	label string
+	v     Val
+	h     *Heap
+	depth int
+}
+
+func (e *Enc) watchLater(label string, v Val, h *Heap, depth int) {
+	e.watchQ = append(e.watchQ, watchItem{label, v, h, depth})
 }
 
 func comps2(v Val) []string {
@@ -920,7 +941,7 @@ func comps2(v Val) []string {
 }
 
 func (e *Enc) watchVal(label string, v Val, h *Heap, depth int, seen map[string]bool) {
-	if depth > 6 || len(e.watch) > 1500 {
+	if depth > 7 || len(e.watch) > 4000 {
 		return
 	}
 	switch v.K {
@@ -936,9 +957,6 @@ func (e *Enc) watchVal(label string, v Val, h *Heap, depth int, seen map[string]
 				seen[key] = true
 				for i := 0; i < st.NumFields(); i++ {
 					f := st.Field(i)
-					if _, isMap := f.Type().Underlying().(*types.Map); isMap {
-						continue
-					}
 					if _, isFn := f.Type().Underlying().(*types.Signature); isFn {
 						continue
 					}
@@ -946,13 +964,50 @@ func (e *Enc) watchVal(label string, v Val, h *Heap, depth int, seen map[string]
 						continue
 					}
 					fv := e.loadAt(h, &Addr{K: aField, Base: v.S, Root: nt, Path: []int{i}, N: -1})
-					e.watchVal(label+"."+f.Name(), fv, h, depth+1, seen)
+					e.watchLater(label+"."+f.Name(), fv, h, depth+1)
 				}
 				return
 			}
 		}
 		if _, ok := v.T.Underlying().(*types.Basic); ok {
 			e.watch = append(e.watch, WatchTerm{label, v.S})
+		} else if mt, ok := v.T.Underlying().(*types.Map); ok && v.Glob == nil {
+			// maps: the entries at small integer keys / at the string parameters of the function
+			e.watch = append(e.watch, WatchTerm{label + "@ref", v.S})
+			key := "map|" + typeKey(mt) + "|" + v.S
+			if seen[key] {
+				return
+			}
+			seen[key] = true
+			var keys [][2]string // (label part, SMT term)
+			if kb, ok := mt.Key().Underlying().(*types.Basic); ok && kb.Info()&types.IsInteger != 0 {
+				for k := 0; k < 9; k++ {
+					keys = append(keys, [2]string{fmt.Sprint(k), num(int64(k))})
+				}
+			} else if ok && kb.Info()&types.IsString != 0 {
+				var ns []string
+				for n := range e.topNames {
+					ns = append(ns, n)
+				}
+				sort.Strings(ns)
+				for _, n := range ns {
+					if tv := e.topNames[n]; tv.K == kScalar && tv.T != nil && isString(tv.T) {
+						keys = append(keys, [2]string{"$" + n, tv.S})
+					}
+				}
+			}
+			dom := e.harr(h, mapDom(mt), arrSort('D', ""))
+			for _, kk := range keys {
+				e.watch = append(e.watch, WatchTerm{label + "{" + kk[0] + "}?", sel(sel(dom, v.S), kk[1])})
+				e.watch = append(e.watch, WatchTerm{label + "{" + kk[0] + "}key", kk[1]})
+				cs := flatten(mt.Elem())
+				ts := make([]string, len(cs))
+				for i, cc := range cs {
+					ts[i] = sel(sel(e.harr(h, mapVal(mt, cc), arrSort('V', cc.Sort)), v.S), kk[1])
+				}
+				ev, _ := fromComps(mt.Elem(), ts)
+				e.watchLater(label+"{"+kk[0]+"}", ev, h, depth+1)
+			}
 		} else {
 			e.watch = append(e.watch, WatchTerm{label + "@ref", v.S})
 		}
@@ -970,7 +1025,7 @@ func (e *Enc) watchVal(label string, v Val, h *Heap, depth int, seen map[string]
 		}
 		for i := 0; i < n; i++ {
 			ev := e.loadAt(h, &Addr{K: aElem, Base: v.Arr, Idx: num(int64(i)), Root: et, N: -1})
-			e.watchVal(fmt.Sprintf("%s[%d]", label, i), ev, h, depth+1, seen)
+			e.watchLater(fmt.Sprintf("%s[%d]", label, i), ev, h, depth+1)
 		}
 	}
 }
